@@ -404,7 +404,8 @@ Section Rel.
     (* with a state override the model reports some conditions as errors where the standard just returns
        (port state: empty buffer); the API setters ignore the difference *)
     | RetErr u _, SB.SRet su => ov = true /\ R u su
-    | RetNilNil u, SB.SRet su => R u su
+    (* only under a state override (file host state, empty buffer): the model returns (nil, nil) *)
+    | RetNilNil u, SB.SRet su => ov = true /\ R u su
     | _, _ => False
     end.
 
@@ -414,7 +415,7 @@ Section Rel.
     | RUrl u, SB.Done su => R u su
     | RErr u _, SB.Failed su => R u su
     | RErr u _, SB.Done su => ov = true /\ R u su
-    | RNilNil u, SB.Done su => R u su
+    | RNilNil u, SB.Done su => ov = true /\ R u su
     | ROutOfFuel, SB.OutOfFuel => True
     | _, _ => False
     end.
